@@ -34,6 +34,7 @@ def run(rep, fb, tier):
     lints.rule_fill_accumulate(rep, fb)
     lints.rule_raw_store(rep, fb)
     lints.rule_ptr_byteoffset(rep, fb)
+    lints.rule_index_ptr_offset(rep, fb)
     lints.rule_contiguous_guard(rep, fb)
     lints.rule_dtype_arm_clones(rep, fb)
     from ..rules import pyrules
